@@ -98,6 +98,91 @@ fn brotli_bomb(store: &[u8], inflated: u64) -> Option<Vec<u8>> {
     Some(out)
 }
 
+/// a JPEG whose store holds `depth` manifests, each the parent ingredient of the next
+/// (built without validating in between; empty when construction fails)
+fn deep_chain(asset: &[u8], depth: usize) -> Vec<u8> {
+    let ctx = Arc::new(sdk::make_context(&json!({"verify": {"verify_after_reading": false, "verify_after_sign": false}})));
+    let Ok(mut cur) = sdk::sign_plain(&ctx, &sdk::simple_definition("c0"), "ed25519", "image/jpeg", asset) else {
+        return Vec::new();
+    };
+    let signer = sdk::make_signer("ed25519");
+    for k in 1..depth {
+        let def = json!({"title": format!("c{k}"), "claim_generator_info": [{"name": "c2pasim", "version": "1"}]});
+        let Ok(mut b) = Builder::from_shared_context(&ctx).with_definition(def) else { return Vec::new() };
+        if b.add_ingredient_from_stream(json!({"title": "p", "relationship": "parentOf"}).to_string(), "image/jpeg", &mut std::io::Cursor::new(&cur)).is_err() {
+            return Vec::new();
+        }
+        let mut d = std::io::Cursor::new(Vec::new());
+        if b.sign(signer.as_ref(), "image/jpeg", &mut std::io::Cursor::new(&cur), &mut d).is_err() {
+            return Vec::new();
+        }
+        cur = d.into_inner();
+    }
+    cur
+}
+
+/// from a JPEG holding a two-manifest chain [M0, M1] make a bare store [M0, M1, M2 .. Mn] where
+/// Mk is M1 with its own label renamed to a fresh one and its parent reference to M(k-1)
+fn forge_chain(two: &[u8], depth: usize) -> Option<Vec<u8>> {
+    let store = {
+        c2pa::jumbf_io::load_jumbf_from_stream("image/jpeg", &mut std::io::Cursor::new(two.to_vec())).ok()?
+    };
+    let top = crate::jumbf::parse(&store);
+    let st = top.first()?;
+    let ms: Vec<&crate::jumbf::JBox> = st.children.iter().filter(|c| &c.typ == b"jumb").collect();
+    if ms.len() != 2 {
+        return None;
+    }
+    let (l0, l1) = (ms[0].label.clone()?, ms[1].label.clone()?);
+    if l0.len() != l1.len() || l0.len() < 12 {
+        return None;
+    }
+    let m1 = &store[ms[1].start..ms[1].end];
+    let label = |k: usize| -> Vec<u8> {
+        // same length as the real labels: overwrite the tail with a counter
+        let mut b = l1.clone().into_bytes();
+        let tag = format!("{k:08x}");
+        let n = b.len();
+        b[n - 8..].copy_from_slice(tag.as_bytes());
+        b
+    };
+    let replace = |hay: &[u8], from: &[u8], to: &[u8]| -> Vec<u8> {
+        let mut o = Vec::with_capacity(hay.len());
+        let mut i = 0;
+        while i < hay.len() {
+            if hay[i..].starts_with(from) {
+                o.extend_from_slice(to);
+                i += from.len();
+            } else {
+                o.push(hay[i]);
+                i += 1;
+            }
+        }
+        o
+    };
+    let outer_jd = st.children.first()?;
+    let mut body = Vec::new();
+    body.extend_from_slice(&store[outer_jd.start..outer_jd.end]);
+    body.extend_from_slice(&store[ms[0].start..ms[0].end]);
+    body.extend_from_slice(m1);
+    let mut prev = l1.clone().into_bytes();
+    for k in 2..depth {
+        let me = label(k);
+        // two-step rename through a placeholder so that own and parent labels do not collide
+        let hold = vec![0x01u8; l1.len()];
+        let a = replace(m1, l1.as_bytes(), &hold);
+        let b = replace(&a, l0.as_bytes(), &prev);
+        let c = replace(&b, &hold, &me);
+        body.extend_from_slice(&c);
+        prev = me;
+    }
+    let mut out = Vec::with_capacity(body.len() + 8);
+    out.extend_from_slice(&((body.len() + 8) as u32).to_be_bytes());
+    out.extend_from_slice(b"jumb");
+    out.extend_from_slice(&body);
+    Some(out)
+}
+
 /// wrap a JUMBF store in `depth` levels of superbox
 fn nest_store(store: &[u8], depth: usize) -> Vec<u8> {
     let mut jumd = Vec::new();
@@ -179,18 +264,18 @@ impl Property for C10 {
     }
 
     fn runs(&self, tier: Tier) -> u64 {
-        // 11 formats x 4 entry kinds x shards (+ 4 fixture runs + 1 nesting run)
+        // 11 formats x 4 entry kinds x shards (+ 4 fixture runs + 1 nesting run + 1 chain run)
         let v = match tier {
             Tier::Quick => 1,
             Tier::Thorough => 6,
         };
-        (11 * SHARDS * 3 + 4 + 1) * v
+        (11 * SHARDS * 3 + 4 + 2) * v
     }
 
     fn run(&self, rc: &mut RunCtx) -> RunOut {
         let mut out = RunOut::default();
         let quick = rc.tier == Tier::Quick;
-        let per = 11 * SHARDS * 3 + 5;
+        let per = 11 * SHARDS * 3 + 6;
         let variant = rc.idx / per;
         let within = rc.idx % per;
         let ctx = Arc::new(sdk::make_context(&json!({})));
@@ -227,6 +312,99 @@ impl Property for C10 {
 
         if within >= 11 * SHARDS * 3 {
             let k = within - 11 * SHARDS * 3;
+            if k == 5 {
+                // a chain of manifests each naming the previous one as its parent, read on a
+                // thread with the default 2 MiB stack
+                let mut ar = Rng::new(hash_str(&format!("{}-chain-{variant}", rc.seed)));
+                let asset = assets::generate(Fmt::Jpeg, &mut ar);
+                let depths: &[usize] = if quick { &[40] } else { &[150, 199] };
+                for (i, depth) in depths.iter().enumerate() {
+                    let sub = i as u64;
+                    if !rc.want_sub(sub) {
+                        continue;
+                    }
+                    rc.mark(sub);
+                    c2pa::verif::set_random_seed(Some(hash_str(&format!("c10-chain-{}-{depth}", rc.seed))));
+                    let chain = rc.artefact(&format!("chain{depth}"), || deep_chain(&asset, *depth));
+                    if chain.is_empty() {
+                        out.probe("chain_not_built");
+                        continue;
+                    }
+                    out.fault("deep_ingredient_chain");
+                    out.keys.push(hash_str(&format!("chain|{depth}")));
+                    let what = format!("{depth} manifests, each the parent ingredient of the next");
+                    for entry in [Entry::Read, Entry::Ingredient] {
+                        out.evals += 1;
+                        let (c2, ch) = (ctx.clone(), chain.clone());
+                        let h = std::thread::Builder::new()
+                            .name("c10-chain".into())
+                            .spawn(move || sdk::guarded(|| ingest(entry, &c2, "image/jpeg", &ch, &[])))
+                            .expect("spawn");
+                        match h.join() {
+                            Ok(Ok((label, st))) => {
+                                out.probe(&format!("chain_outcome:{depth}:{label}"));
+                                out.steps += st.ops;
+                            }
+                            Ok(Err(p)) => {
+                                let loc = p.split('|').next().unwrap_or("?").to_string();
+                                out.violate(sub, &format!("panic:{loc}"), "G1 no panic on untrusted bytes",
+                                    json!({"scenario": "chain", "entry": format!("{entry:?}"), "fault": what, "panic": p}));
+                            }
+                            Err(_) => {
+                                out.violate(sub, "panic:chain-thread", "G1 no panic on untrusted bytes",
+                                    json!({"scenario": "chain", "entry": format!("{entry:?}"), "fault": what}));
+                            }
+                        }
+                    }
+                }
+                // forged chains far deeper than the SDK itself will build: the second manifest of a
+                // two-manifest store repeated with its own and its parent's label renamed
+                let two = rc.artefact("chain2", || deep_chain(&asset, 2));
+                let forged: &[usize] = if quick { &[50, 300, 4000] } else { &[150, 250, 1000, 20000] };
+                for (i, depth) in forged.iter().enumerate() {
+                    let sub = 10 + i as u64;
+                    if !rc.want_sub(sub) {
+                        continue;
+                    }
+                    rc.mark(sub);
+                    let Some(store) = forge_chain(&two, *depth) else {
+                        out.probe("forged_chain_not_built");
+                        continue;
+                    };
+                    out.fault("forged_ingredient_chain");
+                    out.keys.push(hash_str(&format!("forged|{depth}")));
+                    let what = format!("store of {depth} manifests forged from one, each naming the previous as parent");
+                    out.evals += 1;
+                    if std::env::var("VERIF_DEBUG").is_ok() {
+                        let r = Reader::from_shared_context(&ctx).with_stream("application/c2pa", std::io::Cursor::new(store.clone()));
+                        match r {
+                            Ok(r) => eprintln!("forged {depth}: {:?} {:?}", r.validation_state(), r.validation_status().map(|v| v.iter().map(|s| s.code().to_string()).collect::<Vec<_>>())),
+                            Err(e) => eprintln!("forged {depth}: Err {}", format!("{e:?}").chars().take(300).collect::<String>()),
+                        }
+                    }
+                    let (c2, st2) = (ctx.clone(), store.clone());
+                    let h = std::thread::Builder::new()
+                        .name("c10-chain".into())
+                        .spawn(move || sdk::guarded(|| ingest(Entry::Read, &c2, "application/c2pa", &st2, &[])))
+                        .expect("spawn");
+                    match h.join() {
+                        Ok(Ok((label, st))) => {
+                            out.probe(&format!("forged_outcome:{depth}:{label}"));
+                            out.steps += st.ops;
+                        }
+                        Ok(Err(p)) => {
+                            let loc = p.split('|').next().unwrap_or("?").to_string();
+                            out.violate(sub, &format!("panic:{loc}"), "G1 no panic on untrusted bytes",
+                                json!({"scenario": "forged chain", "fault": what, "panic": p}));
+                        }
+                        Err(_) => {
+                            out.violate(sub, "panic:chain-thread", "G1 no panic on untrusted bytes", json!({"scenario": "forged chain", "fault": what}));
+                        }
+                    }
+                }
+                out.sample = Some(json!({"scenario": "deep ingredient chains", "depths": depths, "probes": out.probes}));
+                return out;
+            }
             if k == 4 {
                 // nesting and repetition on a sidecar store
                 let mut ar = Rng::new(hash_str(&format!("{}-nest-{variant}", rc.seed)));
